@@ -144,7 +144,8 @@ def run(ctx):
     binp = ctx.build("c33")
     trace = ctx.drive(binp, ["--script", script])
     small = {"Exts": {"none"}, "Mimes": {"none"}, "Sizes": {"s0"}, "Kinds": {"text"}, "Fns": {"UploadData"}, "Advisory": False}
-    ctx.judge("TransparentTrace", trace, "trace_base.cfg", small, nontrivial=nontrivial, mutate=mutate)
+    ctx.judge("TransparentTrace", trace, "trace_base.cfg", small, nontrivial=nontrivial, mutate=mutate,
+              chunk_events=20000 if th else 2500)
     # advisory: does the decision table predict what doUploadData reported (compressed? encrypted? clear size)
     ups = os.path.join(ctx.out, "uploads.ndjson")
     with open(trace) as f, open(ups, "w") as g:
